@@ -3,9 +3,16 @@
 package verifharness
 
 import (
+	"context"
 	"fmt"
 	"math/rand"
+	"strings"
+	"sync"
 	"testing"
+	"time"
+
+	goat "github.com/avos-io/goat"
+	"github.com/avos-io/goat/gen/goatorepo"
 )
 
 // Scenario generators for C18 (quantifier: all envelope sequences over 1..8
@@ -380,4 +387,89 @@ func TestC18(t *testing.T) {
 		}
 		runDemuxE2E(t, base+i, i, em)
 	}
+	// free-running stress: concurrent Cancel(k) x Cancel(k) x first use of k
+	base += demuxE2ECount()
+	for v := 0; v < 2; v++ {
+		if want(base + v) {
+			runDemuxStress(t, base+v, v, em)
+		}
+	}
+}
+
+// runDemuxStress: real concurrency (no bubble). Every round delivers the FIRST envelope of a key (its previous connection,
+// if any, was cancelled in the round before) while four goroutines call Cancel on that very key. The lock-step model treats
+// lookup-or-create and check-close-forget as one critical section each; this is where an implementation that splits them
+// goes wrong: two Cancels closing the same done channel (panic: the process dies, ./check attributes it to this scenario), or
+// a connection created and announced and then forgotten without being cancelled. After the rounds the demultiplexer is left
+// to settle, every key is cancelled once more, and every connection that was ever announced must then fail a Read with the
+// cancellation error - one that returns an envelope, or does not return, is alive and unregistered: an orphan.
+func runDemuxStress(t *testing.T, idx, variant int, em *Emitter) {
+	em.Marker("begin", idx)
+	rounds := 300
+	nkeys := 1 + 2*variant // one key only / three keys
+	ep := NewEndpoint("shared")
+	var mu sync.Mutex
+	var conns []goat.RpcReadWriter
+	d := goat.NewDemux(context.Background(), ep, func(r *Rpc) string { return r.GetHeader().GetSource() },
+		func(rw goat.RpcReadWriter) { mu.Lock(); conns = append(conns, rw); mu.Unlock() })
+	go d.Run()
+	key := func(r int) string { return fmt.Sprintf("k%d", r%nkeys) }
+	for r := 0; r < rounds; r++ {
+		k := key(r)
+		start := make(chan struct{})
+		var wg sync.WaitGroup
+		for g := 0; g < 4; g++ {
+			wg.Add(1)
+			go func() { defer wg.Done(); <-start; d.Cancel(k) }()
+		}
+		wg.Add(1)
+		go func() {
+			defer wg.Done()
+			<-start
+			ep.Deliver(&Rpc{Id: uint64(r + 1), Header: &goatorepo.RequestHeader{Method: "/x/y", Source: k, Destination: "srv"}})
+		}()
+		close(start)
+		wg.Wait()
+		if r%3 == 2 { // let the run loop catch up now and then, and unpark it
+			d.Cancel(k)
+		}
+	}
+	// settle: everything delivered has been taken (or the run loop is parked for good), every key cancelled once more
+	announced := func() int { mu.Lock(); defer mu.Unlock(); return len(conns) }
+	stable, last := 0, -1
+	for pass := 0; pass < 600 && stable < 5; pass++ {
+		for i := 0; i < nkeys; i++ {
+			d.Cancel(key(i))
+		}
+		time.Sleep(2 * time.Millisecond)
+		if n := announced(); ep.Pending() == 0 && n == last {
+			stable++
+		} else {
+			stable, last = 0, n
+		}
+	}
+	mu.Lock()
+	all := append([]goat.RpcReadWriter(nil), conns...)
+	mu.Unlock()
+	orphans := 0
+	var what []string
+	for i, rw := range all {
+		ctx, cancel := context.WithTimeout(context.Background(), 10*time.Second)
+		x, err := rw.Read(ctx)
+		cancel()
+		if err == nil || !strings.Contains(err.Error(), "demux connection cancelled") {
+			orphans++
+			if len(what) < 5 {
+				what = append(what, fmt.Sprintf("connection %d: Read returned (%v, %v)", i, x != nil, err))
+			}
+		}
+	}
+	extra := len(all) - rounds
+	d.Stop()
+	ep.FailRead(errInjected)
+	em.Emit(Rec{Idx: idx, Kind: "demux-stress", Desc: map[string]any{"rounds": rounds, "keys": nkeys, "cancellers": 4},
+		Obs:  map[string]any{"announced": len(all), "orphans": orphans, "what": what, "left_in_inbox": ep.Pending()},
+		Coq:  fmt.Sprintf("CDemuxStress %d %d %d", rounds, orphans, extra),
+		Tags: []string{"stress", fmt.Sprintf("keys=%d", nkeys)}})
+	em.Marker("end", idx)
 }
